@@ -1,8 +1,10 @@
 import ElfioVerif.Driver.Common
 import ElfioVerif.Driver.C07
+import ElfioVerif.Driver.C09
 open ElfioVerif.Drv
 
 def main (args : List String) : IO UInt32 := do
   match args with
   | ["c07"] => mainLoop C07.runCase; return 0
+  | ["c09"] => mainLoop C09.runCase; return 0
   | _ => IO.eprintln "usage: driver <family>"; return 2
